@@ -72,6 +72,7 @@ class Exec:
         self.tu = tu
         self.stubs = stubs or {}         # callee name -> python function(exec, call node) -> value
         self.inline = set(inline)        # callee names whose bodies are executed
+        self.refs = {}                   # reference locals: declaration id -> lvalue
         self.env = {}
         self.this = {}
         self.out = {}
@@ -97,6 +98,8 @@ class Exec:
         if k == "ParenExpr":
             return self.lv(kids(e)[0])
         if k == "DeclRefExpr":
+            if e["ref"]["id"] in self.refs:
+                return self.refs[e["ref"]["id"]]
             return ("var", e["ref"]["id"], e["ref"]["name"])
         if k == "ArraySubscriptExpr":
             base, idx = self.ev(kids(e)[0]), self.ev(kids(e)[1])
@@ -198,6 +201,8 @@ class Exec:
                 return c
         if k == "DeclRefExpr":
             d = e["ref"]["id"]
+            if d in self.refs:
+                return self.load(self.refs[d], e)
             if d in self.env:
                 return self.env[d]
             if e["ref"].get("kind") == "enumconst" and e["ref"]["name"].startswith("btree_"):
@@ -484,7 +489,11 @@ class Exec:
                 self.stmt(c)
         elif k == "DeclStmt":
             for v in kids(s):
-                if kids(v) and kids(v)[0] is not None:
+                if kids(v) and kids(v)[0] is not None and (v.get("isref") or (v.get("ty") or "").rstrip().endswith("&")) and \
+                        not (v.get("ty") or "").startswith("const ") and strip_casts(kids(v)[0]).get("lv", True) and \
+                        strip_casts(kids(v)[0])["k"] in ("ArraySubscriptExpr", "MemberExpr", "UnaryOperator", "DeclRefExpr"):
+                    self.refs[v["did"]] = self.lv(kids(v)[0])          # a reference local names the object
+                elif kids(v) and kids(v)[0] is not None:
                     self.env[v["did"]] = self.ev(kids(v)[0])
                 else:
                     self.env[v["did"]] = ("uninit", v.get("name"))
